@@ -83,7 +83,8 @@ def gen(rng, tier):
         same = rng.rand() < 0.5
         temp = rng.choice([0.0, 0.0, 300.0])
         sym = len(cases) % 8 == 3      # rmsd with an atomPermutation line, the permuted reference being the one that fits
-        r = one_variable(rng, P, kinds=["rmsd_perm"]) if sym else one_variable(rng, P)
+        rotf = len(cases) % 8 == 5     # a group seen in the frame of a separate fitting group whose reference is turned by a large rotation
+        r = one_variable(rng, P, kinds=["rmsd_perm"]) if sym else (one_variable(rng, P, kinds=["distance_rot", "distanceZ_rot"]) if rotf else one_variable(rng, P))
         if sym:
             temp = 0.0                 # (the Jacobian term of the symmetry-adapted rmsd is not among the documented ones)
         if r is None:
